@@ -20,7 +20,7 @@ CLAIMED = {
          'that the reported position is the first offender; plus closure obligations on index-producing kernels, and at the C++ method level: simplify_optiontype over nested '
          'indexed / option nodes and mergemany of indexed nodes never yield a non-option node with a negative index; every node-method harness of C01-C10, C12 and C17 that decodes a result object '
          'additionally discharges the documented structural rules on it (offsets non-negative, monotone and inside the content; starts <= stops inside the content; size * length inside the content; index / tag inside the '
-         'content, negative index only in option nodes; mask and content long enough; record fields at least as long as the record array; no union directly inside a union) - "operations on valid arrays return valid arrays" '
+         'content, negative index only in option nodes; mask and content long enough; record fields at least as long as the record array; no union directly inside a union; for final results such as combinations along axis 0 also: no indexed / option-type node directly on another one) - "operations on valid arrays return valid arrays" '
          'for the methods those harnesses run (see DESIGN.md 9.5 / 9.6).',
     note='Kernel level only: the C++ validityerror methods (parameter and canonical-form checks) and Python ak.is_valid need '
          'rapidjson/pybind11 and are outside the claim. Trusted: IR encoder, z3, transcription of the documented rules.',
@@ -39,7 +39,7 @@ CLAIMED.update({
            'Python indexing applied to the nested list of atoms; the same items passing through the five option-type / indexed classes; a second index array arriving with a '
            'symbolic pairing (NumPy advanced indexing) at the three list classes; Content::getitem_next for an ellipsis / newaxis followed by any mix of integer, range, index-array (1-d, 2-d) and newaxis items on a node '
            'of symbolic depth range (the ellipsis is consumed exactly when the items account for every dimension below; refused for branches of different depth); Content::getitem_next(SliceMissing64) '
-           '(index array with None: None exactly where the index is negative, the right item of every row elsewhere); carry of seven node classes; NumpyArray::getitem on strided views.',
+           '(index array with None: None exactly where the index is negative, the right item of every row elsewhere); carry of seven node classes; NumpyArray::getitem on strided views; an empty index array (x[:, []]: one empty list per row) through the three list classes.',
            'The entry point Content::getitem(Slice) with one item (integer, range of any step sign, index array) on an opaque array of 0..4 entries. '
            'Kernel, kernel-pipeline and single-node method level: toslice() (pybind11), field items inside tuples, jagged slices at the C++ level (kernels only) and slices with several index arrays '
            'beyond two are outside this claim. Trusted: IR encoder, z3, the CPython slice model in hlib.py.', 'DESIGN.md sections 3 (C01) and 9.5', 'SMT bounded model checking of kernel and C++ method LLVM IR (llbmc + z3; node-method harness with an opaque content) against independent oracles; native replay (ASan kernels, whole-library akrun)'),
@@ -50,22 +50,22 @@ CLAIMED.update({
            'Content::reduce axis normalisation (any axis, any depth, branching or not); every Reducer*::apply_<dtype> of Reducer.cpp (10 reducers x bool, 8 integer types, float32/64, datetime/timedelta for order reducers) from its IR '
            'together with the dispatched kernel on symbolic data with a concrete group assignment including an empty group: documented output type, fold from the identity, a member that no member beats, first such position, -1 / identity for an empty group; '
            'ListOffsetArray64::reduce_next, non-local branch (reduction across the lists of an outer group), from its IR with all eight kernels it wires: every covered element handed on once, equal group numbers exactly for equal (outer group, position), starts = first handed position of a group, shifts = earlier lists of the group too short for the position, one result per position of the longest list; '
-           'NumpyArray::reduce_next (the leaf of every reduction) for all reducers: answer labelled with the documented dtype and item size, positions reported relative to the list (minus starts, plus shifts), mask_identity = None exactly for empty groups, keepdims = a regular dimension of size 1.',
+           'NumpyArray::reduce_next (the leaf of every reduction) for all reducers: answer labelled with the documented dtype and item size, positions reported relative to the list (minus starts, plus shifts), mask_identity = None exactly for empty groups, keepdims = a regular dimension of size 1; the same local / non-local harnesses over ListArray, the 32-bit list classes and RegularArray (rows of a regular array inside outer lists, outer lists without rows included).',
            'Outside: record/union nodes, axis=None, complex types, NaN ordering, explicit `initial=`; prod of floats for groups of more than 2. '
            'Bounds: <= 3/4 elements, <= 2/3 groups, non-local lists <= 3 of length <= 2/3 (lengths case-split), products with the group assignment case-split.',
            'DESIGN.md sections 3 (C03) and 9.5', 'SMT bounded model checking of kernel and C++ method LLVM IR (llbmc + z3; node-method harness with an opaque content) against independent oracles; native replay (ASan kernels, whole-library akrun)'),
  'C04': mc('Narrow claim: the three list re-alignment kernels behind broadcasting - equal lengths align element for element, unequal lengths '
            'raise, length-1 regular dimensions repeat - for all target offsets (zero-based, monotone) and list layouts within n <= 3/4, L <= 3/4. C++ method level: broadcast_tooffsets64 of ListOffsetArray64, '
-           'ListArray64 and RegularArray from their IR over an opaque content (equal lengths align, a size-1 regular dimension repeats its element, unequal lengths raise).',
+           'ListArray64 and RegularArray from their IR over an opaque content (equal lengths align, a size-1 regular dimension repeats its element, unequal lengths raise); NumpyArray::toRegularArray (how an n-dimensional leaf enters the recursion) for shapes up to 4 dimensions with zero-size dimensions anywhere: nested regular lists of exactly that shape.',
            'broadcast_and_apply / array_ufunc (Python over _ext, cannot be imported) are not addressed; this is the kernel core only.', 'DESIGN.md sections 3 (C04) and 9.5', 'SMT bounded model checking of kernel and C++ method LLVM IR (llbmc + z3; node-method harness with an opaque content) against independent oracles; native replay (ASan kernels, whole-library akrun)'),
  'C05': mc('Bounded model checking of the num / localindex / flatten kernels and the num<->compact_offsets round trip against list-structure laws '
            '(concatenation law for flatten offsets, missing list = empty list). C++ method level (from the IR, opaque content): num and localindex of ListOffsetArray64 / '
-           'ListArray64 / RegularArray at the list level and below it, IndexedOptionArray64::offsets_and_flattened at and below the list level.',
-           'Outside: ak.unflatten (NumPy in Python), completely_flatten, axis plumbing of the C++ methods. Known finding: flatten_offsets reads outside '
+           'ListArray64 / RegularArray at the list level and below it, IndexedOptionArray64::offsets_and_flattened at and below the list level; num / localindex of three real node levels - lists of records (1-3 fields) of lists, lists of union-type entries whose contents differ in depth - addressed by a positive and by a negative axis (both name the innermost lists; a negative axis counts from the leaves of each branch).',
+           'Outside: ak.unflatten (NumPy in Python), completely_flatten. Known finding: flatten_offsets reads outside '
            'inneroffsets for a degenerate empty list whose start == stop lies outside the content (accepted by the documented rule).', 'DESIGN.md sections 3 (C05) and 9.5', 'SMT bounded model checking of kernel and C++ method LLVM IR (llbmc + z3; node-method harness with an opaque content) against independent oracles; native replay (ASan kernels, whole-library akrun)'),
  'C07': mc('Bounded model checking of combinations_length -> n carry buffers of totallen -> recursive combinations fill, for n in 1..4, with and '
            'without replacement, against itertools tables; list lengths case-split (<= 4), starts symbolic; counts, order, no neighbour leakage, fill = count. C++ method level: combinations(n, replacement) at the list level of the three list classes (records '
-           'of carried contents decoded and compared with itertools on the nested list of atoms) and combinations below the four option-type node classes.',
+           'of carried contents decoded and compared with itertools on the nested list of atoms) and combinations below the four option-type node classes; Content::combinations_axis0 on the opaque array and on real option-type / indexed / list nodes (the answer is a final result: no indexed node directly on an option-type one).',
            'Outside: ak.cartesian/argcartesian (Python), records/options as element types; RegularArray capacity arithmetic done in C++.', 'DESIGN.md sections 3 (C07) and 9.5', 'SMT bounded model checking of kernel and C++ method LLVM IR (llbmc + z3; node-method harness with an opaque content) against independent oracles; native replay (ASan kernels, whole-library akrun)'),
  'C08': mc('Bounded model checking of the fill/shift/simplify kernels: element j of a part lands at tooffset + j, indexes shifted by exactly the '
            'content base, missing stays missing, numeric fills equal an independently stated C cast, nothing outside the destination range is written. C++ method level: mergemany of IndexedArray / IndexedOptionArray operands of every index width '
@@ -77,7 +77,7 @@ CLAIMED.update({
  'C09': mc('Bounded model checking of the rpad pipelines (length kernel sizes the index buffer of the fill kernel) for ListArray, ListOffsetArray, '
            'RegularArray against the pad law, and of ten option-encoding kernels against one shared validity vector (index<0, byte mask either polarity, '
            'bit mask either order and polarity, lengths not a multiple of 8). C++ method level (from the IR, opaque content): rpad and rpad_and_clip of ListOffsetArray64 / ListArray64 / '
-           'RegularArray at the list level (result nodes decoded, pad law on the nested list of atoms) and below it.',
+           'RegularArray at the list level (result nodes decoded, pad law on the nested list of atoms) and below it; rpad / rpad_and_clip through lists of records of lists by a positive and a negative axis; RecordArray::rpad below the record level (record count kept); bytemask() of the five option encodings.',
            'Outside: ak.fill_none/is_none/mask Python wrappers, fillna merge step, simplify_optiontype.', 'DESIGN.md sections 3 (C09) and 9.5', 'SMT bounded model checking of kernel and C++ method LLVM IR (llbmc + z3; node-method harness with an opaque content) against independent oracles; native replay (ASan kernels, whole-library akrun)'),
 })
 
@@ -105,9 +105,8 @@ CLAIMED.update({
            'module) and awkward_quick_sort: per segment the output is a permutation of the input segment, ordered by the stated comparator with NaN '
            'first, argsort positions are segment-local and realise the order, stable sorts keep equal keys in input order; segment lengths case-split. C++ method level: ListOffsetArray64 sort_next / argsort_next below the list level '
            '(the content receives exactly the covered elements with their parents, the answer is cut back into the same list lengths) and across the lists of an outer group (non-local branch: elements grouped by (outer group, position) '
-           'as for reductions, every answer returns to the list and position of the element handed on; shifts for argsort); axis normalisation of Content::sort / argsort; NumpyArray::sort_next / argsort_next (the leaf: groups from parents, dtype switch, stable and unstable kernels) for bool, all integer widths and floats.',
-           'IndexedOptionArray64::sort_next at the leaf level (valid entries handed on with their groups; per group the answers first, then its Nones). '
-           'Bounds: <= 2 segments of <= 3 (ints) / 2 (floats) elements. Outside: option nodes above the leaf level in sort_next, argsort through options, string sorting kernels. Known finding: the unstable float sort (quick_sort) does not put NaN first.', 'DESIGN.md sections 3 (C06) and 9.5', 'SMT bounded model checking of kernel and C++ method LLVM IR (llbmc + z3; node-method harness with an opaque content) against independent oracles; native replay (ASan kernels, whole-library akrun)'),
+           'as for reductions, every answer returns to the list and position of the element handed on; shifts for argsort); axis normalisation of Content::sort / argsort; NumpyArray::sort_next / argsort_next (the leaf: groups from parents, dtype switch, stable and unstable kernels) for bool, all integer widths and floats; the starts ListOffsetArray64::argsort_next hands on (positions in the content handed over, also for a sliced list); IndexedOptionArray64::sort_next / argsort_next at the sorted level (valid entries handed on with their groups; per group the answers first, then its Nones / the group-local positions of its missing entries, also when nothing is valid) and strictly above the sorted axis (missing lists inside 1-3 outer lists: every entry stays where it was); the string branch of ListOffsetArray64::argsort_next called with shifts (the string kernel stubbed by an arbitrary in-group answer: a string\'s position counts the missing values before it; without any string still an array of positions).',
+           'Bounds: <= 2 segments of <= 3 (ints) / 2 (floats) elements; option harnesses <= 6 entries in <= 3 groups. Outside: the string comparison kernels themselves (std::vector / strncmp bodies), sorting of records. Known finding: the unstable float sort (quick_sort) does not put NaN first.', 'DESIGN.md sections 3 (C06) and 9.5', 'SMT bounded model checking of kernel and C++ method LLVM IR (llbmc + z3; node-method harness with an opaque content) against independent oracles; native replay (ASan kernels, whole-library akrun)'),
  'C10': mc('Narrow claim (RecordArray node only): carry(index), getitem_range_nowrap(start, stop) and field(position) of RecordArray executed from their IR on records '
            'with 0..3 opaque field contents: every field content receives the same positional request, record i of the result holds field by field what the request selects '
            'from each content (so projecting a field by position commutes with positional selection), record count and (absent) field names follow; a field position '
@@ -125,8 +124,8 @@ CLAIMED.update({
            'the old buffer untouched), UnknownBuilder::integer after k leading None (option builder with index -1 ... -1 0 over an integer builder holding exactly x) and UnionBuilder::integer / real over real leaf builders '
            '(the value goes to the first member of its type, a real number otherwise replaces the first integer member by its float conversion, otherwise a new member; tag / index record that member and its previous length; the rest untouched); TupleBuilder::index from any state (a position outside the tuple - negative included - or an unopened tuple is refused, the selection stays inside the tuple), '
            'TupleBuilder::endtuple (unfilled fields get one None, a field filled twice is refused), begintuple on a fresh builder (negative field counts refused) and RecordBuilder::field_check with real key strings '
-           '(a known key selects its field from any cursor position, a new key appends a field pre-filled with one None per closed record).',
-           'The other builders (String/Indexed/Datetime/Complex and the remaining leaf builders), from_iter and LayoutBuilder are outside. kernel::malloc stubbed (fresh exact-size buffer), resize in [1.5, 16] '
+           '(a known key selects its field from any cursor position, a new key appends a field pre-filled with one None per closed record); clear() of record and tuple builders (back to the initial state: no fields, no keys, nothing pending), TupleBuilder::index with a nested tuple open (the position goes to the innermost open tuple), StringBuilder::string (bytes stored unchanged, one offset per string; another encoding opens a union member) and Int64Builder::complex (integers become (re, 0) pairs, nothing read or written past the length).',
+           'The other builders (Indexed/Datetime and the remaining leaf builders), from_iter and LayoutBuilder are outside. kernel::malloc stubbed (fresh exact-size buffer), resize in [1.5, 16] '
            '(thorough adds (1, 1.5]).', 'DESIGN.md section 3 (C14)', 'SMT bounded model checking of C++ method LLVM IR (llbmc M-harness, z3 FP); native ASan replay'),
  'C17': mc('Narrow claim (depth and field queries only): purelist_depth, minmax_depth, branch_depth and numfields of ListOffsetArray64, ListArray64, RegularArray, IndexedOptionArray64, '
            'IndexedArray64, ByteMaskedArray and UnmaskedArray executed from their IR over a content whose own answers are arbitrary: a list node is one level deeper than its '
